@@ -11,12 +11,19 @@ EXTENDS EvalOp, Families, Json, IOUtils
 CONSTANTS GraphSize, Members         \* Members: "graphs" or "inst"
 
 VARIABLE prog
-Init == prog \in (IF Members = "graphs" THEN RecGraphs(GraphSize) ELSE {RecInst(nm) : nm \in RecInstNames})
+\* oracle mode: programs supplied by the driver (random composites)
+FilePrograms == ndJsonDeserialize(IOEnv.PROGRAMS)
+Init == prog \in (CASE Members = "graphs" -> RecGraphs(GraphSize)
+                    [] Members = "file" -> {FilePrograms[i] : i \in 1..Len(FilePrograms)}
+                    [] OTHER -> {RecInst(nm) : nm \in RecInstNames})
 Next == UNCHANGED prog
+
+RECURSIVE SetToSeq(_)
+SetToSeq(S) == IF S = {} THEN <<>> ELSE LET x == CHOOSE x \in S : TRUE IN <<x>> \o SetToSeq(S \ {x})
 
 EvSeq(st) == [j \in 1..Len(st.ev) |-> [e |-> st.ev[j].e, n |-> st.ev[j].n,
                                          xs |-> LET S == st.ev[j].xs IN IF S = {} THEN <<>> ELSE
-                                                CHOOSE f \in [1..Cardinality(S) -> S] : \A a, b \in DOMAIN f : a # b => f[a] # f[b],
+                                                SetToSeq(S),
                                          nm |-> st.ev[j].nm]]
 
 PrintCase ==
@@ -26,7 +33,7 @@ PrintCase ==
                               phase |-> IF run.v.k = "REJECTED" THEN run.v.op ELSE "",
                               rec |-> IF run.v.k = "REJECTED" THEN <<>> ELSE
                                       LET S == run.rec["m1"] IN IF S = {} THEN <<>> ELSE
-                                      CHOOSE f \in [1..Cardinality(S) -> S] : \A a, b \in DOMAIN f : a # b => f[a] # f[b],
+                                      SetToSeq(S),
                               ncomp |-> Cardinality(Components(run.st)),
                               refs |-> [j \in 1..Len(run.st.refs) |-> [nm |-> run.st.refs[j].nm, some |-> run.st.refs[j].some]],
                               events |-> EvSeq(run.st)])>>)
